@@ -30,7 +30,7 @@ structure Inv (s : State) : Prop where
   ret_fin : s.bst = .final → s.ret = none
   /-- `_caller` is set exactly while the body is inside an access — or after `next_async` threw -/
   busy_iff : s.caller ≠ .none ↔ (midAccess s = true ∨ s.stuck = true)
-  stuck_fin : s.stuck = true → s.bst = .final ∧ s.exp = true ∧ s.caller = .awt ∧ s.post ≠ []
+  stuck_fin : s.stuck = true → s.bst = .final ∧ s.caller = .awt ∧ s.post ≠ []
   /-- whoever `_caller` designates is really waiting -/
   c_awt : s.caller = .awt → s.stuck = false → s.cons = .parked ∧ s.fut ≠ .pending
   c_int : s.caller = .internal →
@@ -358,7 +358,7 @@ theorem inv_post_nomore {s : State} (h : Inv s) (hns : inSync s = false) (hf : s
   inv_close
 
 /-- `next_async` on a generator that ended with an exception: `_caller` is stored, then `no_more_values` is thrown -/
-theorem inv_post_stuck {s : State} (h : Inv s) (hns : inSync s = false) (hf : s.bst = .final) (hd : s.done = false) (_hc : s.caller = .none)
+theorem inv_post_stuck {s : State} (h : Inv s) (hns : inSync s = false) (hf : s.bst = .final) (_hc : s.caller = .none)
     (e : List Ev) :
     Inv { s with caller := .awt, stuck := true, seen := s.seen ++ [.nomore], post := s.post ++ [.nomore], evs := e } := by
   inv_cases h
@@ -396,8 +396,8 @@ theorem inv_arm_sync {s : State} (h : Inv s) (hal : s.alive = true) (hc : s.call
 
 /-- `next_async` stores the consumer's awaiter and transfers into the body -/
 theorem inv_arm_awt {s : State} (h : Inv s) (hal : s.alive = true) (hc : s.caller = .none) (hns : inSync s = false) (hf : s.bst ≠ .final)
-    (a : Nat) :
-    Inv (resumeBody { setArg s a with caller := .awt, cons := .parked }) := by
+    (a : Nat) (m : Bool) :
+    Inv (resumeBody { setArg s a with caller := .awt, cons := .parked, subMode := m }) := by
   obtain ⟨hm, hst, hcp, hfp⟩ := idle_facts h hc
   have hb := idle_bst hm hf
   have hci : s.cons = .idle := by
@@ -485,9 +485,9 @@ theorem inv_anextGo {s : State} (h : Inv s) (hal : s.alive = true) (hc : s.calle
     exact inv_post_fin h1 (by simpa [inSync_eq] using hns) hd _
   · split
     · rename_i hd hf
-      exact inv_post_stuck h1 (by simpa [inSync_eq] using hns) (by simpa using hf) (by simpa using hd) (by simpa using hc) _
+      exact inv_post_stuck h1 (by simpa [inSync_eq] using hns) (by simpa using hf) (by simpa using hc) _
     · rename_i hd hf
-      exact inv_arm_awt h hal hc hns (by simpa using hf) a
+      exact inv_arm_awt h hal hc hns (by simpa using hf) a false
 
 theorem inv_stepAnext {s : State} (h : Inv s) (a : Nat) : Inv (stepAnext s a).1 := by
   unfold stepAnext
@@ -499,6 +499,28 @@ theorem inv_stepAnext {s : State} (h : Inv s) (a : Nat) : Inv (stepAnext s a).1 
       · exact h
       · rename_i h1 h2 h3
         exact inv_anextGo h (by simpa using h1) (by simpa using h3) (by simpa using h2) a
+
+theorem inv_subGo {s : State} (h : Inv s) (hal : s.alive = true) (hc : s.caller = .none) (hns : inSync s = false)
+    (a : Nat) : Inv (subGo (setArg s a)).1 := by
+  obtain ⟨hm, hst, hcp, hfp⟩ := idle_facts h hc
+  have h1 := inv_setArg h hm a
+  unfold subGo
+  split
+  · rename_i hf
+    exact inv_post_stuck h1 (by simpa [inSync_eq] using hns) (by simpa using hf) (by simpa using hc) _
+  · rename_i hf
+    exact inv_arm_awt h hal hc hns (by simpa using hf) a true
+
+theorem inv_stepSub {s : State} (h : Inv s) (a : Nat) : Inv (stepSub s a).1 := by
+  unfold stepSub
+  split
+  · exact h
+  · split
+    · exact h
+    · split
+      · exact h
+      · rename_i h1 h2 h3
+        exact inv_subGo h (by simpa using h1) (by simpa using h3) (by simpa using h2) a
 
 theorem inv_callGo {s : State} (h : Inv s) (hal : s.alive = true) (hc : s.caller = .none) (hns : inSync s = false)
     (a : Nat) : Inv (callGo (setArg s a)).1 := by
@@ -659,6 +681,7 @@ theorem inv_step {s : State} (h : Inv s) (op : Op) : Inv (step s op).1 := by
   | syncEnd => exact inv_stepSyncEnd h
   | value => exact inv_stepValue h
   | anext a => exact inv_stepAnext h a
+  | sub a => exact inv_stepSub h a
   | call a => exact inv_stepCall h a
   | futWait => exact inv_stepFutWait h
   | futGet => exact inv_stepFutGet h
@@ -741,6 +764,9 @@ theorem konst_step (s : State) (op : Op) : konst (step s op).1 = konst s := by
   case value => unfold stepValue; repeat (first | rfl | split)
   case anext a =>
     unfold stepAnext anextGo
+    repeat (first | rfl | (dsimp only; rw [konst_resumeBody]; exact konst_setArg _ _) | exact konst_setArg _ _ | split)
+  case sub a =>
+    unfold stepSub subGo
     repeat (first | rfl | (dsimp only; rw [konst_resumeBody]; exact konst_setArg _ _) | exact konst_setArg _ _ | split)
   case call a =>
     unfold stepCall callGo futRes
@@ -851,6 +877,9 @@ theorem step_not_run (s : State) (op : Op) (h : s.bst ≠ .run) : (step s op).1.
   case value => unfold stepValue; repeat (first | exact h | split)
   case anext a =>
     unfold stepAnext anextGo
+    repeat (first | exact h | exact hs _ | exact resumeBody_not_run _ (hs _) | split)
+  case sub a =>
+    unfold stepSub subGo
     repeat (first | exact h | exact hs _ | exact resumeBody_not_run _ (hs _) | split)
   case call a =>
     unfold stepCall callGo futRes
